@@ -47,7 +47,7 @@ func c03Stream(r *Run) {
 	v := r.DrawVersion()
 	comp := r.DrawCompression(v)
 	n := 1 + T.Draw("nframes", 40)
-	readerMode := T.Draw("reader", 3) // 0 DecodeFrame, 1 DecodeRawFrame (by declared length), 2 DecodeHeader+DecodeBody
+	readerMode := T.Draw("reader", 4) // 0 DecodeFrame, 1 DecodeRawFrame (by declared length), 2 DecodeHeader+DecodeBody, 3 DecodeHeader + DiscardBody for every other frame
 	// cut: after the last frame the writer delivers only a prefix of one more frame and closes the stream;
 	// the decoder has to end with an error there, not with a frame (nor with a raw frame whose body is
 	// shorter than its header declares)
@@ -66,7 +66,7 @@ func c03Stream(r *Run) {
 	r.Config["version"] = v.String()
 	r.Config["compression"] = string(comp)
 	r.Config["frames"] = fmt.Sprint(n)
-	r.Config["reader"] = []string{"DecodeFrame", "DecodeRawFrame+Convert", "DecodeHeader+DecodeBody"}[readerMode]
+	r.Config["reader"] = []string{"DecodeFrame", "DecodeRawFrame+Convert", "DecodeHeader+DecodeBody", "DecodeHeader+DecodeBody/DiscardBody alternating"}[readerMode]
 	r.Config["source"] = []string{"connection", "*bytes.Buffer (whole stream)", "*bytes.Reader (whole stream)", "bufio.Reader over the connection", "*bytes.Buffer written and read in turns"}[source]
 	r.Config["rejects"] = fmt.Sprint(rejects)
 	maxBytes := 2000
@@ -76,7 +76,7 @@ func c03Stream(r *Run) {
 	frames := make([]*frame.Frame, n)
 	for i := range frames {
 		frames[i] = GenFrame(T, GenOpts{Version: v, Requests: true, Responses: true, MaxBytes: maxBytes, BigChance: 0.15,
-			Compressible: T.Bool("compressible", 0.5), HeaderFlags: true, AllowTracingOnRequests: true}, int16(T.Draw("stream", 120)))
+			Compressible: T.Bool("compressible", 0.5), HeaderFlags: true, AllowTracingOnRequests: true}, DrawStreamId(T, v))
 		if comp != primitive.CompressionNone && T.Bool("compressflag", 0.6) {
 			markCompressed(T, frames[i])
 		}
@@ -87,6 +87,7 @@ func c03Stream(r *Run) {
 	sent := make([]*c03Sent, 0, n)
 	var got []*frame.Frame
 	shortRaw := ""
+	skipNext := false
 	var consumedAt []int64 // reader position after each decoded frame
 	var readErr error
 	writerDone, readerDone := false, false
@@ -102,6 +103,22 @@ func c03Stream(r *Run) {
 					shortRaw = fmt.Sprintf("DecodeRawFrame returned a raw frame whose header declares %d body bytes with a body of %d bytes", raw.Header.BodyLength, len(raw.Body))
 				}
 				f, err = rcodec.ConvertFromRawFrame(raw)
+			}
+		case 3:
+			var h *frame.Header
+			if h, err = rcodec.DecodeHeader(src); err == nil {
+				skipNext = !skipNext
+				if skipNext {
+					// a reader that is not interested in this frame skips its body by the declared length
+					if err = rcodec.DiscardBody(h, src); err == nil {
+						f = &frame.Frame{Header: h} // no body: only the position is judged for this one
+					}
+				} else {
+					var body *frame.Body
+					if body, err = rcodec.DecodeBody(h, src); err == nil {
+						f = &frame.Frame{Header: h, Body: body}
+					}
+				}
 			}
 		default:
 			var h *frame.Header
@@ -131,7 +148,7 @@ func c03Stream(r *Run) {
 	var turnsWritten int
 	var cutBytes []byte
 	if cut && source != 4 {
-		cf := GenFrame(T, GenOpts{Version: v, Requests: true, Responses: true, MaxBytes: 400, HeaderFlags: true}, int16(T.Draw("stream", 120)))
+		cf := GenFrame(T, GenOpts{Version: v, Requests: true, Responses: true, MaxBytes: 400, HeaderFlags: true}, DrawStreamId(T, v))
 		var cb bytes.Buffer
 		if err := frameCodecFor(comp).EncodeFrame(cf, &cb); err == nil && cb.Len() > 1 {
 			cutBytes = cb.Bytes()[:1+T.Draw("cut.at", cb.Len()-1)]
@@ -274,7 +291,13 @@ func c03Stream(r *Run) {
 		r.Violate(P, "sequence", "count-mismatch", "reader decoded %d frames, writer wrote %d", len(got), len(okSent))
 	}
 	for i := 0; i < len(got) && i < len(okSent); i++ {
-		if ok, diff := FramesEqual(okSent[i].f, got[i], false); !ok {
+		if got[i].Body == nil {
+			// skipped with DiscardBody: header and position only
+			if got[i].Header.StreamId != okSent[i].f.Header.StreamId || got[i].Header.OpCode != okSent[i].f.Header.OpCode {
+				r.Violate(P, "sequence", "frame-differs:"+okSent[i].kind, "frame %d (%s): header decoded before DiscardBody differs from what was written", i, okSent[i].kind)
+				break
+			}
+		} else if ok, diff := FramesEqual(okSent[i].f, got[i], false); !ok {
 			r.Violate(P, "sequence", "frame-differs:"+okSent[i].kind, "frame %d (%s, version %v, compression %v) decoded from the stream differs from what was written: %s", i, okSent[i].kind, v, comp, diff)
 			break
 		}
